@@ -510,7 +510,7 @@ impl Property for C09 {
     fn runs(&self, tier: Tier) -> u64 {
         match tier {
             Tier::Quick => 30_000,
-            Tier::Thorough => 1_500_000,
+            Tier::Thorough => 1_200_000,
         }
     }
 
